@@ -255,8 +255,9 @@ class C06(Spec):
     TRUST = [
         'IEEE-754 binary64 round-to-nearest with unit round-off 2^-53 for + - * / in the normal range (assumed, not '
         'proved; the float-level stream of this check exercises it with the real interpreter)',
-        'the discrete composition is proved over an abstract queue (e2e_kept / e2e_cancelled take what the queue model must '
-        'provide as hypotheses); the queue itself is exercised here as real code, its model and theorems are C02-C04',
+        'the discrete composition is proved over the concrete queue model of C02-C04 composed with the extractor model of C05 '
+        '(e2e_composed_*; Helper/C06_Compose.lean mirrors simulate() below); with pauses it assumes that no two notified trials '
+        'share (start sample, key) (C05 Valid: distinct dictionary keys); the queue itself is exercised here as real code',
         'modelled, not verified: NumPy/PipelineData slicing and concatenation',
     ]
     ASSUMPTIONS = [
